@@ -350,6 +350,15 @@ def to_coq(case, o):
             if not math.isfinite(v):
                 item['pyviolation'] = 'non-finite statistic'
                 return item
+            if w == 'median':
+                # dit compares the *float* cumulative sums with 0.5; when an exact partial sum is within rounding of 1/2 without
+                # being 1/2 (0.29 + 0.21), which side it falls on is a rounding artefact, not a property of the table: not decided
+                acc = Fraction(0)
+                for oo, pp in o['stored']:
+                    acc += Fraction(*float(pp).as_integer_ratio())
+                    if acc != Fraction(1, 2) and abs(acc - Fraction(1, 2)) < Fraction(1, 10 ** 12):
+                        item['median_ambiguous'] = True
+                        return item
             model = {'mean': 'smean %s' % t, 'central': 'scentral %d%%nat %s' % (case['order'], t), 'median': 'smedian %s' % t}[w]
             item['goals'].append(bg('qclose ctol11 (%s) %s' % (model, lib.qf(v))))
         else:
